@@ -156,7 +156,7 @@ let run_case k line =
         let fq j = match parse_decimal f.(j) with P.Ok q -> q | P.Err _ -> failwith "number" in
         let cells_set (l : P.cell P.result list) =
           set_line (List.map (sres (fun c -> "cell " ^ scell c)) l) in
-        let out = match f.(0) with
+        let out = try (match f.(0) with
           | "W" ->
             let d = fq 3 and jump = fi 4 <> 0 and start = cell_of (fi 1) (fi 2) in
             let all = P.walk_all net (fuel d) start d jump in
@@ -198,7 +198,8 @@ let run_case k line =
             let c = cell_of (fi 1) (fi 2) in
             Printf.sprintf "eligible %s%s" (if P.is_cell_eligible net c then "1" else "0")
               (if P.has_node_at net c then "1" else "0")
-          | _ -> "unknown_query" in
+          | _ -> "unknown_query")
+          with Stack_overflow | Out_of_memory -> "set MODEL_OVERFLOW" in
         Printf.printf "%d q%d %s\n" k i out
       done
   end
